@@ -11,6 +11,8 @@ package main
 // calls is torn apart deterministically).  The receiving side is a real endpoint with a catch-all
 // handler (arrival order) and several filtering handlers.  Every header field the reader leaves free
 // varies (genHeaderFields).  c10start.go: endpoints built on connections whose peer has already written.
+// c10end.go: what a handler (of every flavour) has been given when its life ends while its consumer is busy.
+// c10fail.go: Sends that fail on other connections before and while the concurrent senders work.
 
 import (
 	"bytes"
@@ -155,6 +157,7 @@ type rvStream struct {
 	mu      sync.Mutex
 	cond    *sync.Cond
 	calls   [][]byte
+	changed []string // Write calls whose buffer changed between the entry of the call and its return
 	arrived int
 	gen     int
 	wait    time.Duration
@@ -172,7 +175,17 @@ func (s *rvStream) Read(p []byte) (int, error) {
 }
 func (s *rvStream) Write(p []byte) (int, error) {
 	s.mu.Lock()
-	s.calls = append(s.calls, append([]byte(nil), p...))
+	atEntry := append([]byte(nil), p...)
+	callNo := len(s.calls)
+	s.calls = append(s.calls, atEntry)
+	// a transport reads p at any moment until Write returns: the bytes must not change under it
+	defer func() {
+		if !bytes.Equal(p, atEntry) {
+			s.mu.Lock()
+			s.changed = append(s.changed, fmt.Sprintf("Write call %d: %x at the entry of the call, %x when it returned", callNo, headBytes(atEntry, 48), headBytes(p, 48)))
+			s.mu.Unlock()
+		}
+	}()
 	s.arrived++
 	if s.arrived%2 == 0 {
 		s.gen++
@@ -206,6 +219,13 @@ func (s *rvStream) Close() error {
 }
 func (s *rvStream) String() string           { return "harness://rendezvous" }
 func (s *rvStream) Context() context.Context { return context.TODO() }
+
+func headBytes(b []byte, n int) []byte {
+	if len(b) > n {
+		return b[:n]
+	}
+	return b
+}
 
 // ---------- phase 1: rendezvous writer ----------
 
@@ -303,6 +323,16 @@ func phaseRendezvous(out *c10Out, rng *hx.Rng, runs int) {
 		if big {
 			nS, nM = 2, 2
 		}
+		// two runs in three: Sends on other connections of the process have failed before, and (one in three) keep failing meanwhile
+		prelude, beside := "", func() {}
+		if r%3 != 0 {
+			prelude = " " + failedSends(rng)
+			out.Dist["after-failed-sends:rendezvous"]++
+			if r%3 == 2 {
+				beside = failingBeside(rng.U64())
+				prelude += ", more of them failing meanwhile"
+			}
+		}
 		lists := make([][]net.Message, nS)
 		for s := 0; s < nS; s++ {
 			for _, sm := range genSizes(rng, nM, true) {
@@ -332,13 +362,20 @@ func phaseRendezvous(out *c10Out, rng *hx.Rng, runs int) {
 		}
 		close(start)
 		wg.Wait()
+		beside()
 		e.Close()
 		st.mu.Lock()
 		calls := append([][]byte(nil), st.calls...)
+		changed := append([]string(nil), st.changed...)
 		st.mu.Unlock()
 		desc := fmt.Sprintf("rendezvous stream: %d senders x %d messages", nS, nM)
 		if big {
 			desc += fmt.Sprintf(" of %d..%d payload bytes", 66000, 200000)
+		}
+		desc += prelude
+		if len(changed) > 0 {
+			out.Fails = append(out.Fails, fmt.Sprintf("%s: the bytes handed to the stream changed while the Write call was in progress (%d of %d calls; a transport that had not yet taken them sends the other frame): %s",
+				desc, len(changed), len(calls), changed[0]))
 		}
 		if sendErr != nil {
 			out.Fails = append(out.Fails, fmt.Sprintf("%s: Send failed: %v", desc, sendErr))
@@ -558,6 +595,17 @@ type arrival struct {
 
 func runTransport(out *c10Out, rng *hx.Rng, tr transport, dir string, k int, nS, nM int, small bool, forModel bool) {
 	desc := fmt.Sprintf("%s: %d senders x %d messages", tr.name, nS, nM)
+	// two runs in three: Sends on other connections of the process have failed before, and (one in three) keep failing meanwhile
+	beside := func() {}
+	if k%3 != 0 {
+		desc += " " + failedSends(rng)
+		out.Dist["after-failed-sends:"+tr.name]++
+		if k%3 == 2 {
+			beside = failingBeside(rng.U64())
+			desc += ", more of them failing meanwhile"
+		}
+	}
+	defer func() { beside() }()
 	total := nS * nM
 	lists := make([][]net.Message, nS)
 	bytesTotal := 0
@@ -1168,11 +1216,27 @@ func childC10(res *hx.Result, rng *hx.Rng, tier string, outdir string) {
 	if v, err := time.ParseDuration(os.Getenv("QV_C10_STALL_T")); err == nil && v > 0 {
 		stallT = v // e.g. QV_C10_STALL_T=12s ./check C10 quick : the thorough stall without the rest of the thorough tier
 	}
-	joinStalled := startStalledPeers(outdir, stallT, res.Seed)
-	save("rendezvous stream")
-	phaseRendezvous(out, rng, 30*mult)
+	// QV_C10_PHASES=end,rendezvous ./check C10 quick : only the named phases (development, replay of one family)
+	only := map[string]bool{}
+	for _, p := range strings.Split(os.Getenv("QV_C10_PHASES"), ",") {
+		if p != "" {
+			only[p] = true
+		}
+	}
+	want := func(p string) bool { return len(only) == 0 || only[p] }
+	joinStalled := func(*c10Out) {}
+	if want("stalled") {
+		joinStalled = startStalledPeers(outdir, stallT, res.Seed)
+	}
+	if want("rendezvous") {
+		save("rendezvous stream")
+		phaseRendezvous(out, rng, 30*mult)
+	}
 	k := 0
 	for _, tr := range transports() {
+		if !want("transports") {
+			break
+		}
 		save("transport " + tr.name + " (small runs)")
 		for i := 0; i < 8*mult; i++ {
 			k++
@@ -1187,43 +1251,53 @@ func childC10(res *hx.Result, rng *hx.Rng, tier string, outdir string) {
 		save("transport " + tr.name + " (many senders)")
 		runTransport(out, rng, tr, outdir, k, 8+rng.Intn(8), 40, false, false)
 	}
-	save("start-up: the peer has written before the endpoint exists")
-	phaseStartUp(out, rng, outdir, 5*mult)
-	for i := 0; i < 3*mult; i++ {
-		busServerTalksFirst(out, rng, outdir, i, []string{"unix", "tcp"}[i%2])
-	}
-	save("dispatch scripts")
-	nD := 300 * mult
-	for i := 0; i < nD; i++ {
-		sc := genDispatchScript(hx.NewRng(rng.U64()))
-		o := runScript(i, sc)
-		for _, f := range o.Fails {
-			out.Fails = append(out.Fails, fmt.Sprintf("operation sequence [%s]: %s", o.Desc, f))
+	if want("start-up") {
+		save("start-up: the peer has written before the endpoint exists")
+		phaseStartUp(out, rng, outdir, 5*mult)
+		for i := 0; i < 3*mult; i++ {
+			busServerTalksFirst(out, rng, outdir, i, []string{"unix", "tcp"}[i%2])
 		}
-		nh := 0
-		for _, op := range sc.Ops {
-			if op.Kind == opMake {
-				nh++
+	}
+	if want("end") {
+		save("send-then-end: what a handler has been given when its life ends")
+		phaseEnd(out, hx.NewRng(rng.U64()), outdir, 2*mult)
+	}
+	if want("dispatch") {
+		save("dispatch scripts")
+		nD := 300 * mult
+		for i := 0; i < nD; i++ {
+			sc := genDispatchScript(hx.NewRng(rng.U64()))
+			o := runScript(i, sc)
+			for _, f := range o.Fails {
+				out.Fails = append(out.Fails, fmt.Sprintf("operation sequence [%s]: %s", o.Desc, f))
+			}
+			nh := 0
+			for _, op := range sc.Ops {
+				if op.Kind == opMake {
+					nh++
+				}
+			}
+			out.Counts = append(out.Counts, c10Count{o.Desc, nh >= 2})
+			out.Dist["dispatch-scripts"]++
+			out.DCases = append(out.DCases, [2]string{fmt.Sprintf("{| c_ops := %s; c_end := %d%%N; c_hs := %s; c_sent := %s; c_wire := %s; c_sclose := %d%%N |}",
+				hx.List(o.Ops), o.End, hx.List(o.Hs), hx.List(o.Sent), wireTerm(o.Wire), o.SClose), o.Desc})
+		}
+	}
+	if want("stress") {
+		save("concurrent registration/removal under traffic")
+		rounds := 25 * mult
+		agg := map[string]int{}
+		for r := 0; r < rounds; r++ {
+			fails, stats := stressRound(res.Seed+7777, r)
+			out.Fails = append(out.Fails, fails...)
+			for k, v := range stats {
+				agg[k] += v
 			}
 		}
-		out.Counts = append(out.Counts, c10Count{o.Desc, nh >= 2})
-		out.Dist["dispatch-scripts"]++
-		out.DCases = append(out.DCases, [2]string{fmt.Sprintf("{| c_ops := %s; c_end := %d%%N; c_hs := %s; c_sent := %s; c_wire := %s; c_sclose := %d%%N |}",
-			hx.List(o.Ops), o.End, hx.List(o.Hs), hx.List(o.Sent), wireTerm(o.Wire), o.SClose), o.Desc})
+		out.Notes = append(out.Notes, fmt.Sprintf("handlers registered and removed concurrently with traffic: %d rounds, %d handlers, %d messages delivered; every closed handler received exactly what its filter selected while its queue had room",
+			rounds, agg["handlers"], agg["delivered"]))
+		out.Dist["stress-rounds"] = rounds
 	}
-	save("concurrent registration/removal under traffic")
-	rounds := 25 * mult
-	agg := map[string]int{}
-	for r := 0; r < rounds; r++ {
-		fails, stats := stressRound(res.Seed+7777, r)
-		out.Fails = append(out.Fails, fails...)
-		for k, v := range stats {
-			agg[k] += v
-		}
-	}
-	out.Notes = append(out.Notes, fmt.Sprintf("handlers registered and removed concurrently with traffic: %d rounds, %d handlers, %d messages delivered; every closed handler received exactly what its filter selected while its queue had room",
-		rounds, agg["handlers"], agg["delivered"]))
-	out.Dist["stress-rounds"] = rounds
 	save("stalled peer")
 	joinStalled(out)
 	save("done")
@@ -1235,8 +1309,12 @@ func runC10(res *hx.Result, rng *hx.Rng, tier string, outdir string) {
 		"every free header field varies (flags, 8 types, id/object/action/service at the extremes) and is compared field by field; " +
 		"start-up runs: the peer's first 1..6 messages already written before the endpoint is built by EndPointFinalizer (finalizer working 0..25 ms or sending first, 1..4 handlers), " +
 		"by NewEndPoint, or by a bus server's accept loop, on harness buffer / mem-pipe / unix / tcp / tls / fd-pipe; " +
+		"send-then-end runs: 1..3 handlers of every flavour (MakeHandler with a queue of the harness, AddHandler with a consumer callback, ReceiveAny), 1..22 messages, the last 1..10 back to back, " +
+		"then the handler's life ends (the peer hangs up at once / connection reset / local Close / RemoveHandler / keep=false) while every consumer is still busy, on the same six transports, " +
+		"after RemoveHandler / keep=false a new handler takes the freed slot and more messages follow; " +
+		"two sender runs in three are preceded (one in three also accompanied) by failing Sends on other connections of the process (8 kinds of failure, from 1..8 goroutines); " +
 		"operation sequences with 2..6 handlers (one in ten: 11..14 handlers, then removals) and 8..40 messages replayed on the model; non-trivial = the arrival order changes sender at least as often as there are senders, " +
-		"a dispatch c17script has >= 2 handlers, or a start-up run has >= 2 handlers and >= 2 messages written ahead; distinct by sha256 of (transport, arrival order), of the c17script text or of the start-up description"
+		"a dispatch c17script has >= 2 handlers, a start-up run has >= 2 handlers and >= 2 messages written ahead, or a send-then-end run has >= 2 messages; distinct by sha256 of (transport, arrival order), of the c17script text or of the start-up / send-then-end description"
 	path := filepath.Join(outdir, "C10_child.json")
 	os.Remove(path)
 	cmd := exec.Command(os.Args[0], "--seed", fmt.Sprint(res.Seed), "--tier", tier, "--out", outdir, "C10.child")
